@@ -49,6 +49,62 @@ SHAPES: Dict[str, Tuple[str, int, Any]] = {
     "ppt": ("({0}) ? ({1}) : ({2})", 3, lambda v: v[1] if v[0] else v[2]),
     "strq": ("[{0}, '&& || ? :' == ')'].exists(x, x)", 1, lambda v: v[0]),
 }
+# ---- systematic clause family (round 2) ----------------------------------------------------------------
+# A clause = TOP over ATOMS.  Every atom has the value of its one variable and NO logical operator outside brackets /
+# string literals, but differs in what its *text* contains: nothing special, `&&` / `||` / `?:` inside parentheses, inside
+# brackets / braces, inside a string literal (with and without brackets elsewhere), an escaped quote before an operator in a
+# string.  Crossing tops with atoms covers what a text-level shortcut in the scanner / in `operands` may key on ("no && or ||
+# anywhere", "no ? anywhere", "no bracket", "contains a quote", "starts with ( and ends with )", ...), instead of a fixed list.
+ATOMS: List[str] = [
+    "{0}",
+    "({0} && true)",
+    "({0} || false)",
+    "(true ? {0} : false)",
+    "[{0}, '&&' == '?'].exists(x, x)",
+    "'&&' != '' == {0}",
+    "'||' != '' == {0}",
+    "'?' != ':' == {0}",
+    "{{'k': {0}}}['k']",
+    "{0} in [true]",
+    "\"\\\"\" != \"&& || ?\" == {0}",
+    "[{0} || false, false && true].exists(x, x)",
+    "{0} == true",
+    "'(' != ')' == {0}",
+]
+TOPS: Dict[str, Tuple[str, int, Any]] = {
+    "t_atom": ("{0}", 1, lambda v: v[0]),
+    "t_not": ("! {0}", 1, lambda v: not v[0]),
+    "t_and": ("{0} && {1}", 2, lambda v: v[0] and v[1]),
+    "t_or": ("{0} || {1}", 2, lambda v: v[0] or v[1]),
+    "t_tern": ("{0} ? {1} : {2}", 3, lambda v: v[1] if v[0] else v[2]),
+    "t_eq": ("{0} == {1}", 2, lambda v: v[0] == v[1]),
+    "t_tern_and": ("{0} ? {1} && {2} : false", 3, lambda v: (v[1] and v[2]) if v[0] else False),
+}
+SYS_COMPOUND = ["t_and", "t_or", "t_tern", "t_tern_and"]
+
+
+def shape_of(leaf) -> Tuple[str, int, Any]:
+    """(text template over variables, number of variables, value function) of a boolean clause representative"""
+    if leaf["shape"] == "sys":
+        tmpl, n, fn = TOPS[leaf["top"]]
+        # an atom under `!` / `==` must be primary-like or it would change the top: every ATOM is a member / relation;
+        # relations under `!`, `==`, `?:`-condition are parenthesis-free only when that keeps the reading, so atoms that are
+        # relations are wrapped where the top binds tighter than a relation
+        parts = []
+        for j in range(n):
+            a = ATOMS[leaf["atoms"][j] % len(ATOMS)]
+            rel = (" == " in a or " != " in a or " in " in a) and not a.startswith(("(", "[", "{{"))
+            if rel and leaf["top"] in ("t_not", "t_eq"):
+                a = "(" + a + ")"
+            parts.append(a.replace("{0}", "{%d}" % j))
+        return tmpl.format(*parts), n, fn
+    return SHAPES[leaf["shape"]]
+
+
+def is_compound(leaf) -> bool:
+    return leaf["top"] in SYS_COMPOUND if leaf["shape"] == "sys" else leaf["shape"] in COMPOUND
+
+
 COMPOUND = ["and", "or", "tern", "off", "on", "andor", "orand", "strpre", "stror", "stresc", "stresc2", "pp", "ppand", "ppt"]
 SIMPLE = [s for s in SHAPES if s not in COMPOUND]
 
@@ -148,9 +204,26 @@ def _splits(n: int, k: int) -> Iterable[Tuple[int, ...]]:
             yield (i,) + rest
 
 
-def rand_tree(rng: random.Random, n: int, d: int):
+def sys_leaf(rng: random.Random, i: int, top: Optional[str] = None, compound: Optional[bool] = None):
+    if top is None:
+        pool = SYS_COMPOUND if compound else ([t for t in TOPS if t not in SYS_COMPOUND] if compound is False else list(TOPS))
+        top = rng.choice(pool)
+    return {"shape": "sys", "top": top, "atoms": [rng.randrange(len(ATOMS)) for _ in range(3)], "i": i}
+
+
+def rand_tree(rng: random.Random, n: int, d: int, deep: bool = False):
     if n <= 1 or d == 0:
         return ["prim", None]
+    if deep and n > 3:
+        # one long spine: mostly single-child connectives, the rest of the budget in small side branches
+        k = 1 if rng.random() < 0.6 else 2
+        if k == 1:
+            return [rng.choice(["and", "or", "not", "list"]), [rand_tree(rng, n - 1, d - 1, True)]]
+        side = ["prim", None]
+        kids = [rand_tree(rng, n - 2, d - 1, True), side]
+        if rng.random() < 0.5:
+            kids.reverse()
+        return [rng.choice(["and", "or", "not", "list"]), kids]
     k = rng.randint(1, min(3, n - 1))
     cuts = sorted(rng.sample(range(1, n - 1), k - 1)) if k > 1 else []
     parts = [b - a for a, b in zip([0] + cuts, cuts + [n - 1])]
@@ -182,13 +255,13 @@ def var(i: int, j: int) -> str:
 
 
 def clause_text(leaf) -> str:
-    tmpl, n, _ = SHAPES[leaf["shape"]]
+    tmpl, n, _ = shape_of(leaf)
     return tmpl.format(*[var(leaf["i"], j) for j in range(n)])
 
 
 def clause_assignment(leaf, value: bool, sel: int) -> Dict[str, bool]:
     """an assignment of the clause's variables under which the clause has `value`"""
-    _, n, fn = SHAPES[leaf["shape"]]
+    _, n, fn = shape_of(leaf)
     opts = [vs for vs in itertools.product([False, True], repeat=n) if bool(fn(vs)) == value]
     vs = opts[sel % len(opts)]
     return {var(leaf["i"], j): vs[j] for j in range(n)}
@@ -532,7 +605,7 @@ class C18(Prop):
                 if not in_multi:
                     return False
                 if c["kind"] == "bool":
-                    return x[1]["shape"] in COMPOUND
+                    return is_compound(x[1])
                 return True
             if in_multi and len(x[1]) > 1:
                 return True
@@ -562,6 +635,8 @@ class C18(Prop):
                 ctr += 1
                 # compound shapes are over-represented: they are where embedding can go wrong
                 def mk(i, ctr=ctr):
+                    if rng.random() < 0.3:
+                        return sys_leaf(rng, i, compound=rng.random() < 0.6)
                     pool = COMPOUND if rng.random() < 0.55 else shapes_all
                     return {"shape": rng.choice(pool), "i": i}
                 cases.append({"kind": "bool", "f": fill(t, mk), "seed": rng.randrange(1 << 16)})
@@ -574,6 +649,31 @@ class C18(Prop):
             if True:
                 cases.append({"kind": "bool", "f": [conn, [["prim", {"shape": s1, "i": 0}], ["prim", {"shape": s2, "i": 1}]]],
                               "seed": rng.randrange(1 << 16)})
+        # the systematic family: every compound top over one atom kind throughout ("homogeneous": what a text-level
+        # shortcut keys on is then absent / present everywhere in the clause), and over random atom mixes, next to a sibling
+        conns = ("and", "or", "not", "list")
+        for top in SYS_COMPOUND:
+            for a in range(len(ATOMS)):
+                for rep in range(1 if quick else 4):
+                    me = {"shape": "sys", "top": top, "atoms": [a, a, a], "i": 0}
+                    sib = sys_leaf(rng, 1, compound=False) if rng.random() < 0.7 else {"shape": rng.choice(shapes_all), "i": 1}
+                    kids = [["prim", me], ["prim", sib]]
+                    if rng.random() < 0.5:
+                        kids.reverse()
+                    cases.append({"kind": "bool", "f": [rng.choice(conns), kids], "seed": rng.randrange(1 << 16)})
+        for conn in conns:
+            for top in SYS_COMPOUND:
+                for rep in range(4 if quick else 40):
+                    kids = [["prim", sys_leaf(rng, 0, top=top)], ["prim", sys_leaf(rng, 1, compound=rng.random() < 0.3)]]
+                    if rep % 2:
+                        kids.reverse()
+                    cases.append({"kind": "bool", "f": [conn, kids], "seed": rng.randrange(1 << 16)})
+        # deep, narrow trees: the nesting level is a parameter of the translator (parentheses from level 2 on)
+        for _ in range(40 if quick else 400):
+            d = rng.randint(5, 9)
+            t = rand_tree(rng, rng.randint(d + 1, d + 3), d, deep=True)
+            cases.append({"kind": "bool", "f": fill(t, lambda i: sys_leaf(rng, i) if rng.random() < 0.5 else
+                                                    {"shape": rng.choice(shapes_all), "i": i}), "seed": rng.randrange(1 << 16)})
         # real clauses
         nreal = 150 if quick else 1500
         for _ in range(nreal):
